@@ -245,6 +245,9 @@ class _N(ast.NodeTransformer):
 
     def visit_If(self, node: ast.If):
         self.generic_visit(node)
+        # N30: if c: pass else: B      ->      if not c: B        (what N24 leaves of `if c: continue` + REST)
+        if len(node.body) == 1 and isinstance(node.body[0], ast.Pass) and node.orelse:
+            node = ast.copy_location(ast.If(test=_negate(node.test), body=node.orelse, orelse=[]), node)
         # N26: if not any(P for T in IT): BODY      ->      for T in IT: if P: break   else: BODY
         # (the existential scan in its loop form, which the scan rules follow; T must not be a name the function uses elsewhere)
         t = node.test
@@ -368,16 +371,21 @@ class _N(ast.NodeTransformer):
         while i < len(res):
             st = res[i]
             nxt = res[i + 1] if i + 1 < len(res) else None
+            app_st, app_ifs = (nxt.body[0] if isinstance(nxt, ast.For) and len(nxt.body) == 1 else None), []
+            if isinstance(app_st, ast.If) and not app_st.orelse and len(app_st.body) == 1:
+                # one filtering `if` (without else) around the append becomes the comprehension's condition
+                app_ifs, app_st = [app_st.test], app_st.body[0]
             if isinstance(st, ast.Assign) and len(st.targets) == 1 and isinstance(st.targets[0], ast.Name) \
                     and isinstance(st.value, ast.List) and not st.value.elts and isinstance(nxt, ast.For) and not nxt.orelse \
-                    and len(nxt.body) == 1 and isinstance(nxt.body[0], ast.Expr) and isinstance(nxt.body[0].value, ast.Call):
-                c = nxt.body[0].value
+                    and len(nxt.body) == 1 and isinstance(app_st, ast.Expr) and isinstance(app_st.value, ast.Call):
+                c = app_st.value
                 name = st.targets[0].id
                 if isinstance(c.func, ast.Attribute) and c.func.attr == "append" and isinstance(c.func.value, ast.Name) \
                         and c.func.value.id == name and len(c.args) == 1 and not c.keywords \
                         and name not in {n.id for n in ast.walk(c.args[0]) if isinstance(n, ast.Name)} \
+                        and name not in {n.id for x_ in app_ifs for n in ast.walk(x_) if isinstance(n, ast.Name)} \
                         and name not in {n.id for n in ast.walk(nxt.iter) if isinstance(n, ast.Name)}:
-                    comp = ast.ListComp(elt=c.args[0], generators=[ast.comprehension(target=nxt.target, iter=nxt.iter, ifs=[], is_async=0)])
+                    comp = ast.ListComp(elt=c.args[0], generators=[ast.comprehension(target=nxt.target, iter=nxt.iter, ifs=app_ifs, is_async=0)])
                     res2.append(ast.copy_location(ast.Assign(targets=[ast.Name(id=name, ctx=ast.Store())], value=comp), st))
                     i += 2
                     continue
